@@ -40,7 +40,7 @@ PROBES = ["overloads_same_param_names", "optional_param_member", "class_missing_
           "unprintable_followed_by_hexdigit", "templated_class_documented", "no_docs_at_all",
           "bindings_with_marker", "bindings_expected_empty", "more_bindings_than_documented_overloads",
           "xml_member_has_extra_optional_param", "overloads_with_permuted_param_names",
-          "literals_crosschecked_with_gpp"]
+          "literals_crosschecked_with_gpp", "binding_after_fault_on_its_file"]
 
 
 def batches(tier):
@@ -398,6 +398,7 @@ def run_case(tape, batch):
     W.install_seams()
     B._quiet()
     seen = [0]
+    faulted_paths = {}
 
     def plan(w, task, op, path, info):
         if op != "open-r" or not path.startswith(XML + "/"):
@@ -408,6 +409,7 @@ def run_case(tape, batch):
         if f is None:
             return None
         kind, arg = f
+        faulted_paths.setdefault(path, len(w.log))      # first fault on this file, by event-log position
         w.probe("fault_on_index_open" if path.endswith("/index.xml") else "fault_on_class_open")
         data = w.files.get(path, b"")
         if kind in ("ENOENT", "EACCES", "EISDIR", "EIO"):
@@ -474,6 +476,7 @@ def run_case(tape, batch):
                          "detail": "%d inserted literals for %d extract_docstring calls" % (len(lits), len(calls))})
             lits = None
         if lits is not None:
+            case["faulted_paths"] = faulted_paths
             viol += judge(case, calls, lits, w)
             if case["gpp"] and not viol and lits:
                 ok_lits = [lt for lt in lits]
@@ -571,6 +574,14 @@ def judge(case, calls, lits, w):
                              "detail": "an xml-fault hit the opens of %s.%s(%s) but the literal is %r" %
                                        (c["cls"], c["method"], ",".join(c["args"]), doc[:80])})
             continue
+        # a reader may legitimately remember that a file was unreadable (e.g. a per-run cache of parsed
+        # files): once a fault has hit index.xml or this class's file, later bindings that need that file
+        # may come out empty -- "unreadable XML yields an empty docstring"
+        prior = case.get("faulted_paths", {})
+        needs = [XML + "/index.xml"] + ([XML + "/" + entry["refid"] + ".xml"] if entry is not None else [])
+        if any(pth in prior and prior[pth] <= c["log0"] for pth in needs):
+            may_be_empty = True
+            w.probe("binding_after_fault_on_its_file")
         relaxed = key_faulted[key] and nkey[key] > 1
         if nkey[key] > len(cands) >= 1:
             # more bindings with this name list than documented members: which overload is the
